@@ -69,7 +69,7 @@ WgAdd(n) == St("wgadd", n, 0, 0, Nil, Nil, <<>>)
 WgDone == St("wgdone", 0, 0, 0, Nil, Nil, <<>>)
 WgWait == St("wgwait", 0, 0, 0, Nil, Nil, <<>>)
 Decl(a) == St("decl", a, 0, 0, Nil, Nil, <<>>)
-Print(x) == St("print", 0, 0, 0, x, Nil, <<>>)
+Prt(x) == St("print", 0, 0, 0, x, Nil, <<>>)
 App(a) == St("app", a, 0, 0, Nil, Nil, <<>>)
 C(n) == En("c", n)
 P(n) == En("p", n)
@@ -104,7 +104,7 @@ Counter(shape, n, r, join, decl) ==
       tm |-> IF nested THEN <<w, mid>> ELSE <<w>>,
       main |-> Opt(join = "wg", <<WgAdd(cnt)>>)
                \o (IF nested THEN <<Spawn(2, 0, 0)>> ELSE <<Spawn(1, 1, n)>>)
-               \o Opt(decl, <<Decl(1), Decl(2)>>) \o <<Inc(Lit(100))>> \o wait2 \o <<Print(E("X"))>>,
+               \o Opt(decl, <<Decl(1), Decl(2)>>) \o <<Inc(Lit(100))>> \o wait2 \o <<Prt(E("X"))>>,
       exp |-> <<100 + r * SumTo(n) + (IF nested THEN 7 ELSE 0)>>]
 
 (* n producers send k*10 r times, main sums what it receives *)
@@ -114,7 +114,7 @@ FanIn(n, r, cap, decl) ==
       caps |-> <<cap>>,
       tm |-> <<w>>,
       main |-> <<Spawn(1, 1, n)>> \o Opt(decl, <<Decl(1)>>)
-               \o <<Rep(n * r, <<Recv(C(1)), AddV>>), Print(E("acc"))>>,
+               \o <<Rep(n * r, <<Recv(C(1)), AddV>>), Prt(E("acc"))>>,
       exp |-> <<10 * r * SumTo(n)>>]
 
 (* n stages: stage k reads c<k>, appends digit k, writes c<k+1>; a feeder     *)
@@ -127,7 +127,7 @@ Pipe(n, r, cap, decl) ==
       caps |-> [i \in 1..(n + 1) |-> cap],
       tm |-> <<st, fd>>,
       main |-> <<Spawn(1, 1, n), Spawn(2, 0, 0)>> \o Opt(decl, <<Decl(1)>>)
-               \o <<Range(C(n + 1), <<Print(E("v"))>>)>>,
+               \o <<Range(C(n + 1), <<Prt(E("v"))>>)>>,
       exp |-> [j \in 1..r |-> Digits(j, n)]]
 
 (* main and one worker append to S in turn; only the two channels order them *)
@@ -137,7 +137,7 @@ Handoff(r, decl) ==
       caps |-> <<1, 1>>,
       tm |-> <<w>>,
       main |-> <<Spawn(1, 1, 1)>> \o Opt(decl, <<Decl(1)>>)
-               \o <<Rep(r, <<App(1), Send(C(1), Lit(5)), Recv(C(2))>>), Print(E("S"))>>,
+               \o <<Rep(r, <<App(1), Send(C(1), Lit(5)), Recv(C(2))>>), Prt(E("S"))>>,
       exp |-> <<Alt(r)>>]
 
 Programs ==
